@@ -201,6 +201,36 @@ def oracle(ctx, interp, Ad, A, theta, norm, spl, sym, rowsum0, base):
             ctx.fail(name + '/shape', repr(P.shape), case)
             continue
         Pd = P.toarray()
+        # the published classical formulas (De Sterck, Falgout, Nolting, Yang 2008, eq. (8) and its modified form (9)) on M-matrices:
+        #   w_ij = -( a_ij + sum_{k in F_i^s} a_ik abar_kj / sum_{l in C_i^s} abar_kl ) / ( a_ii + sum_{weak m} a_im ),
+        # where the modified variant first drops strong F-F connections without a common strong C point (they count as weak)
+        if name.startswith('classical') and np.all(np.diag(Ad) > 0) and np.all(Ad - np.diag(np.diag(Ad)) <= 0):
+            modified_ = name.endswith('modified')
+            for i in range(n):
+                if spl[i] == 1:
+                    continue
+                Cs_ = [j for j in sorted(strong[i]) if spl[j] == 1]
+                Fs_ = [k for k in sorted(strong[i]) if spl[k] == 0]
+                if modified_:
+                    Fs_ = [k for k in Fs_ if any(l in strong[k] for l in Cs_)]
+                if not Cs_:
+                    continue
+                inner_ = {k: sum(Ad[k, l] for l in Cs_) for k in Fs_}
+                if any(abs(v) < 1e-9 * abs(Ad[k, k]) for k, v in inner_.items()):
+                    continue          # (a strong F neighbour without coupling to C_i: the formula divides by zero, nothing is claimed)
+                den_ = Ad[i, i] + sum(Ad[i, m] for m in range(n) if m != i and m not in Cs_ and m not in Fs_)
+                if abs(den_) < 1e-9 * abs(Ad[i, i]):
+                    continue
+                ctx.count('oracle:%s/formula-rows' % name)
+                for j in Cs_:
+                    want_ = -(Ad[i, j] + sum(Ad[i, k] * Ad[k, j] / inner_[k] for k in Fs_)) / den_
+                    got_ = Pd[i, int(cidx[j])]
+                    if not abs(got_ - want_) <= 1e-9 * (1 + abs(want_)):
+                        ctx.fail(name + '/formula', 'w[%d,%d] = %r, the published formula gives %r' % (i, j, float(got_), float(want_)), case)
+                        break
+                else:
+                    continue
+                break
         for i in range(n):
             row = {int(j): P.data[k] for k, j in zip(range(P.indptr[i], P.indptr[i + 1]), P.indices[P.indptr[i]:P.indptr[i + 1]])}
             if spl[i] == 1:
